@@ -17,6 +17,7 @@ open GlueVerif.C16
 #print axioms cache_sound
 #print axioms cache_sound_from
 #print axioms slice_to_bound_positions
+#print axioms sliced_request_denotes
 #print axioms selection_edited_in_place_stale
 #print axioms data_changed_in_place_stale
 #print axioms slice_to_bound_pinned_wrong
